@@ -276,7 +276,8 @@ class StateTriggerDecorator(TriggerDecorator, ExpressionDecorator, AutoKwargsDec
 
                 if ident_any_values_changed(func_args, self.state_trig_ident_any):
                     trig_ok = True
-                elif ident_values_changed(func_args, self.state_trig_ident):
+                elif ident_values_changed(func_args, self.state_trig_ident - self.state_trig_ident_any):
+                    # (the any-change names have just been checked, as attributes)
                     trig_ok = await self._is_trig_ok(new_vars)
                 else:
                     # not a change of a watched value (eg, an attribute-only update): no evaluation,
